@@ -103,6 +103,15 @@ class FaultConn:
             _fire(self._role, f[1])
         return self._real.commit()
 
+    # a connection used as a context manager commits (or rolls back) on
+    # exit: keep the seam transparent for code written that way
+    def __enter__(self):
+        self._real.__enter__()
+        return self
+
+    def __exit__(self, exc_type, exc, tb):
+        return self._real.__exit__(exc_type, exc, tb)
+
 
 class _Sqlite3Proxy:
     """Stands in for the sqlite3 module inside cylc.flow.rundb."""
